@@ -79,6 +79,23 @@ func c16Prop(st *CaseStats, fam int) func(t *rapid.T) {
 		if got, want := statsOf(b), (XStats{2 * sb.Total, 2 * sb.DocCount, 2 * sb.SumTTF}); got != want {
 			t.Fatalf("%s:\n  self-merge of CollectionStats(%q) = %+v, expected %+v", desc, f2, got, want)
 		}
+		// an index reader aggregates by merging OTHER segments' statistics into the object it got
+		// from the first segment: that must not change what any segment reports afterwards
+		for _, f := range []string{f1, UnknownField} {
+			x, err := c.Seg.CollectionStats(f)
+			if err != nil {
+				t.Fatalf("%s: %v", desc, err)
+			}
+			x.Merge(&oneDocStats{})
+			x.Merge(&oneDocStats{})
+		}
+		obs3, err := Observe(c.Seg, ProbeFields, Facets{Stats: true})
+		if err != nil {
+			t.Fatalf("%s: %v", desc, err)
+		}
+		if d := Diff(c.Exp, obs3, Facets{Stats: true}); d != "" {
+			t.Fatalf("%s:\n  after statistics objects returned by the segment were used as Merge receivers: %s", desc, d)
+		}
 		labels := c.LabelList()
 		termless := false
 		for di := range c.Docs {
